@@ -161,6 +161,19 @@ CHECKS = {
         design_ref='DESIGN.md §2 C06; notes/C06.md',
         note='Trusted: networkx VF2 as reference; caps |I| <= 6000 and 3000 LCS maxima (skipped cases counted, < 1 %).',
         technique='Differential testing against networkx VF2 with orbit bookkeeping; exhaustive enumeration of all small graph pairs + Hypothesis families'),
+    'C11': dict(
+        category='exploration',
+        text=('Metamorphic testing of the complete pipeline through the real entry() of bin/martinize2 (run in long-lived server '
+              'subprocesses that own PYTHONHASHSEED): a protein fragment cut from 11 test structures is processed as is under hash '
+              'seed 0 and again after a presentation change (atoms permuted inside their residues, hydrogens renamed by scheme or to '
+              'unique meaningless names, one of the 24 exact rotations plus a grid translation - exact at the text level -, hash seed '
+              '0/1/4242) with the same generated options (-ff, -elastic with bounds and units, -p, -ss, -dssp, -cys, -nt, -noscfix, '
+              '-resid). The written .top/.itp/.pdb files are parsed with independent readers and must agree: same molecules, particles, '
+              'interactions as multisets with numeric tolerance, coordinates related by the same motion; only elastic bonds whose '
+              'length sits on the upper bound may differ.'),
+        design_ref='DESIGN.md §2 C11',
+        note='Trusted: the independent ITP reader; memoised force-field loading per server process. Rotations are restricted to the 24 axis permutations (exact in PDB text), so a dependence that is invariant under axis permutations (e.g. an L1 norm) would not be seen. Polarizable force fields not generated.',
+        technique='Metamorphic testing (paired pipeline runs) with Hypothesis-generated fragments, transforms and options'),
 }
 
 NOT_YET = 'check not built yet in this round (planned, see DESIGN.md §2)'
